@@ -113,7 +113,7 @@ class Engine:
         if z3.is_true(goal):
             v = solve.Verdict("unsat", "trivial", 0.0)
         else:
-            insts = solve.instantiate(st.qhyps, st.pc + [neg]) if st.qhyps else []
+            insts = solve.instantiate(st.qhyps, [neg] + st.pc) if st.qhyps else []
             v = solve.check(st.pc + insts + [neg])
         r = VCResult(name, prop, self.cur_key, v.status, v.backend, v.secs,
                      list(st.notes), v.model, kind, site, v.raw)
@@ -461,6 +461,15 @@ class Engine:
             return [(st, NONE)]
         if isinstance(T, V):
             return [(st, T)]
+        if isinstance(T, ty.Tup):
+            acc = [(st, [])]
+            for i, Ti in enumerate(T.items):
+                nxt = []
+                for s, vs in acc:
+                    for s2, v in self.fresh_of_type(s, Ti, f"{prefix}_{i}"):
+                        nxt.append((s2, vs + [v]))
+                acc = nxt
+            return [(s, VTuple(vs)) for s, vs in acc]
         v = fresh_value(T, prefix)
         st._typing(v, T)
         if isinstance(T, ty.Exc):
